@@ -2,7 +2,7 @@
    Statements only; proofs live in theories/Pipe/SlProofs.v, the model in
    theories/Pipe/SlSlices.v, the orientation tables in generated/Tables.v
    (regenerated from the live package on every check run). *)
-From Coq Require Import NArith ZArith List Bool Lia.
+From Coq Require Import NArith ZArith List Bool Lia Sorted Permutation.
 From NGS Require Import Val Ints SlSlices SlProofs.
 From NGSGen Require Import Tables.
 Import ListNotations.
@@ -89,3 +89,34 @@ Proof. exact reversed_example. Qed.
 Example C15_rai_single_slice :
   map ck_coords (fst (run rai_example)) = [(0, 1, 0, 1, 0, 1)] /\ snd (run rai_example) = Ok tt.
 Proof. exact rai_example_ok. Qed.
+
+(* ---------- order of the slices of one directory ---------- *)
+
+(* The stack order of a directory is sorted(d.iterdir()): [slice_order names]
+   is a permutation of the names, sorted for the lexicographic order on the
+   bytes of the names, and it is THE sorted permutation: any list with the
+   same names that is sorted equals it.  (All names, any number, duplicates
+   included.) *)
+Theorem C15_slice_order_sorted_permutation : forall names,
+  Permutation names (slice_order names) /\ Sorted lex_le (slice_order names) /\
+  forall l, Permutation names l -> Sorted lex_le l -> l = slice_order names.
+Proof. exact slice_order_spec. Qed.
+Print Assumptions C15_slice_order_sorted_permutation.
+
+(* the lexicographic order on names is a total order: reflexive, transitive,
+   total, and antisymmetric (two names each before the other are equal, so
+   distinct names are strictly ordered) *)
+Theorem C15_lex_order_total : 
+  (forall a, lex_le a a) /\ (forall a b c, lex_le a b -> lex_le b c -> lex_le a c) /\
+  (forall a b, lex_le a b \/ lex_le b a) /\ (forall a b, lex_le a b -> lex_le b a -> a = b).
+Proof.
+  split; [exact lex_le_refl|]. split; [exact lex_le_trans|]. split; [exact lex_le_total | exact lex_le_antisym].
+Qed.
+Print Assumptions C15_lex_order_total.
+
+(* numeric and lexicographic order differ: files s1 s2 s9 s10 are stacked as
+   s1 s10 s2 s9 *)
+Example C15_slice_order_example :
+  slice_order [[115; 49]; [115; 50]; [115; 57]; [115; 49; 48]]%N
+  = [[115; 49]; [115; 49; 48]; [115; 50]; [115; 57]]%N.
+Proof. exact slice_order_example. Qed.
